@@ -229,20 +229,44 @@ func c12(r *core.Report) {
 				continue
 			}
 			closeM := methodOf(p, n, "Close")
-			if closeM != nil {
-				r.Analysed(closeM)
-				reach := p.ReachableFuncs([]*ssa.Function{closeM}, cha)
-				found := false
+			reachesCloser := func(root *ssa.Function) bool {
+				reach := p.ReachableFuncs([]*ssa.Function{root}, cha)
 				for _, cf := range closerFns {
 					top := cf
 					for top.Parent() != nil && !reach[top] {
 						top = top.Parent()
 					}
 					if reach[cf] || reach[top] {
-						found = true
+						return true
 					}
 				}
-				if found {
+				return false
+			}
+			// When the owner is handed to users through p2p.Compose* as a non-first
+			// argument, the Close users can call is that of the FIRST argument.
+			if cc := composeUses(p, n); len(cc) > 0 {
+				allOK := true
+				for _, u := range cc {
+					if u.closeOfFirst == nil {
+						allOK = false
+						r.Violation("C12-OWNED-CLOSED", c+" via "+core.FnName(u.site.Parent()), p.Pos(u.site.Pos()), "composed swarm: cannot resolve the Close of the first Compose argument")
+						continue
+					}
+					r.Analysed(u.closeOfFirst)
+					if !reachesCloser(u.closeOfFirst) {
+						allOK = false
+						r.Violation("C12-OWNED-CLOSED", c+" via "+core.FnName(u.site.Parent()), p.Pos(u.site.Pos()),
+							"the composed swarm exposes "+core.FnName(u.closeOfFirst)+" as Close, which never closes this hub: ServeAsk/Receive blocked on it survives Close")
+					}
+				}
+				if allOK {
+					r.OK("C12-OWNED-CLOSED", c, p.Pos(f.Pos()), "closed on a call path from the Close exposed by every p2p.Compose* site that hands out the owner")
+				}
+				continue
+			}
+			if closeM != nil {
+				r.Analysed(closeM)
+				if reachesCloser(closeM) {
 					r.OK("C12-OWNED-CLOSED", c, p.Pos(f.Pos()), "closed on a call path from "+core.FnName(closeM))
 					continue
 				}
@@ -502,4 +526,42 @@ func auditedGoroutineCloser(r *core.Report, owner *types.Named, f *types.Var, cl
 		return false, "Close does not, on every path, cancel the receive loops and close the inner swarm that the hub's closer goroutine waits on"
 	}
 	return false, "closer goroutine does not close the hub on every path"
+}
+
+type composeUse struct {
+	site         ssa.CallInstruction
+	closeOfFirst *ssa.Function
+}
+
+// composeUses finds the p2p.Compose* call sites where a value of (pointer to)
+// owner type is passed as a non-first argument, and resolves the Close method
+// of the first argument's concrete type.
+func composeUses(p *core.Prog, owner *types.Named) []composeUse {
+	var out []composeUse
+	for _, fn := range p.ModFuncs {
+		for _, ci := range core.Calls(fn, func(ci ssa.CallInstruction) bool {
+			f := core.StaticCallee(ci.Common())
+			return f != nil && f.Pkg != nil && f.Pkg.Pkg.Path() == core.ModPath && strings.HasPrefix(f.Name(), "Compose")
+		}) {
+			args := ci.Common().Args
+			uses := false
+			for _, a := range args[1:] {
+				if mi, ok := a.(*ssa.MakeInterface); ok && isNamed(mi.X.Type(), owner) {
+					uses = true
+				}
+			}
+			if !uses {
+				continue
+			}
+			u := composeUse{site: ci}
+			if mi, ok := args[0].(*ssa.MakeInterface); ok {
+				ms := p.SSA.MethodSets.MethodSet(mi.X.Type())
+				if sel := ms.Lookup(nil, "Close"); sel != nil {
+					u.closeOfFirst = p.SSA.MethodValue(sel)
+				}
+			}
+			out = append(out, u)
+		}
+	}
+	return out
 }
